@@ -77,6 +77,15 @@ func (g *gov) sexpr(e ast.Expr) (string, bool) {
 				return "(STrim " + a + ")", true
 			}
 		}
+		// strings.Trim(x, "c") with a one-byte ASCII cutset
+		if g.c.src1(e.Fun) == "strings.Trim" && len(e.Args) == 2 {
+			if cs, isConst := g.c.constString(e.Args[1]); isConst && len(cs) == 1 && cs[0] < 0x80 {
+				a, ok := g.sexpr(e.Args[0])
+				if ok {
+					return fmt.Sprintf("(STrimByte x%02x %s)", cs[0], a), true
+				}
+			}
+		}
 	case *ast.SelectorExpr:
 		root, path, ok := selPath(e)
 		if !ok || root != g.recv {
@@ -140,6 +149,15 @@ func (g *gov) bexpr(e ast.Expr) (string, bool) {
 				}
 				return "(BOr " + a + " " + b + ")", true
 			}
+		case token.GTR:
+			// len(x) > n
+			if call, isCall := e.X.(*ast.CallExpr); isCall && isIdent(call.Fun, "len") && len(call.Args) == 1 {
+				if n, okn := intLit(e.Y); okn {
+					if a, oka := g.sexpr(call.Args[0]); oka {
+						return fmt.Sprintf("(BLenGt %s %d)", a, n), true
+					}
+				}
+			}
 		case token.EQL, token.NEQ:
 			wrap := func(s string) string {
 				if e.Op == token.NEQ {
@@ -159,6 +177,17 @@ func (g *gov) bexpr(e ast.Expr) (string, bool) {
 					return wrap("BOptsNil"), true
 				}
 				return "", false
+			}
+			// comparison with a constant: membership in a one-element list (same atom shape as switch/Contains)
+			if v, isConst := g.c.constString(y); isConst {
+				if a, ok1 := g.sexpr(x); ok1 {
+					return wrap("(BIn " + a + " " + coqBytesList([]string{v}) + ")"), true
+				}
+			}
+			if v, isConst := g.c.constString(x); isConst {
+				if b, ok2 := g.sexpr(y); ok2 {
+					return wrap("(BIn " + b + " " + coqBytesList([]string{v}) + ")"), true
+				}
 			}
 			a, ok1 := g.sexpr(x)
 			b, ok2 := g.sexpr(y)
@@ -215,6 +244,15 @@ func (c *Ctx) requireSSRecognised() bool {
 	}
 	want := "{ opts := &ValidateOpts{} if fwm != nil && fwm.ValidateOptions != nil { opts = fwm.ValidateOptions } return !opts.AllowMissingSenderSupplied }"
 	return c.src1(fd.Body) == want
+}
+
+// validateIfPresentRecognised checks the generic helper against the shape the RangeStmt translation assumes.
+func (c *Ctx) validateIfPresentRecognised() bool {
+	fd, ok := c.funcs["validateIfPresent"]
+	if !ok || fd.Body == nil {
+		return false
+	}
+	return c.src1(fd.Body) == "{ if tag == nil { return nil } return tag.Validate() }"
 }
 
 func seq(items []string) string {
@@ -356,6 +394,26 @@ func (g *gov) stmt(s ast.Stmt) string {
 		}
 		return g.unsupS(s)
 	case *ast.IfStmt:
+		// if x := <string expr>; cond { ... }   (local binding, substituted)
+		if s.Init != nil {
+			if as, isAs := s.Init.(*ast.AssignStmt); isAs && as.Tok == token.DEFINE && len(as.Lhs) == 1 && len(as.Rhs) == 1 && !isIdent(as.Lhs[0], "err") {
+				if id, isId := as.Lhs[0].(*ast.Ident); isId {
+					if v, ok := g.sexpr(as.Rhs[0]); ok {
+						saved, had := g.locals[id.Name]
+						g.locals[id.Name] = v
+						s2 := *s
+						s2.Init = nil
+						out := g.stmt(&s2)
+						if had {
+							g.locals[id.Name] = saved
+						} else {
+							delete(g.locals, id.Name)
+						}
+						return out
+					}
+				}
+			}
+		}
 		// if err := CALL; err != nil { return err | return fieldError("F", err, ..) }
 		if s.Init != nil {
 			as, isAs := s.Init.(*ast.AssignStmt)
@@ -394,6 +452,32 @@ func (g *gov) stmt(s ast.Stmt) string {
 			}
 		}
 		return "(TIf " + cnd + "\n      " + th + "\n      " + el + ")"
+	case *ast.RangeStmt:
+		// for _, err := range []error{ validateIfPresent(fwm.X), ... } { if err != nil { return err } }
+		if g.self == nil && g.c.validateIfPresentRecognised() && isIdent(s.Value, "err") && len(s.Body.List) == 1 &&
+			g.c.src1(s.Body.List[0]) == "if err != nil { return err }" {
+			if cl, isCL := s.X.(*ast.CompositeLit); isCL && g.c.src1(cl.Type) == "[]error" {
+				var items []string
+				ok := true
+				for _, el := range cl.Elts {
+					call, isCall := el.(*ast.CallExpr)
+					if !isCall || !isIdent(call.Fun, "validateIfPresent") || len(call.Args) != 1 {
+						ok = false
+						break
+					}
+					t := g.tagOfMsgExpr(call.Args[0])
+					if t == nil {
+						ok = false
+						break
+					}
+					items = append(items, fmt.Sprintf("(TIf (BNot (BNil %d)) (TValidate %d) TSkip)", t.Index, t.Index))
+				}
+				if ok {
+					return seq(items)
+				}
+			}
+		}
+		return g.unsupS(s)
 	case *ast.SwitchStmt:
 		if s.Init != nil || s.Tag == nil {
 			return g.unsupS(s)
